@@ -887,10 +887,21 @@ def gen_pattern(rng):
     return h
 
 
+# regression case of finding D20b (fixed in /repo 8785da6): partial_size(()) on a single-file torrent, and on a
+# torrent that lost its content, must raise PathError; it runs on every invocation and must pass
 WITNESS_D20B = {'history': True, 'shape': 'witness-D20b', 'cseed': 1,
                 'init': {'name': 'single.bin', 'single': True, 'files': [{'path': [], 'size': 5}], 'pl': K, 'pieces': 'real'},
                 'steps': [{'op': 'disk', 'sync': 0}, {'op': 'check', 'cb': None},
-                          {'op': 'psize', 'sel': ['empty'], 'form': 'tuple'}, {'op': 'check', 'cb': None}]}
+                          {'op': 'psize', 'sel': ['empty'], 'form': 'tuple'}, {'op': 'check', 'cb': None},
+                          {'op': 'psize', 'sel': ['empty'], 'form': 'path'},
+                          # an empty file list, then no file list at all (files setter with nothing)
+                          {'op': 'edit', 'e': {'k': 'multi', 'files': [], 'pieces': 'stale'}},
+                          {'op': 'psize', 'sel': ['empty'], 'form': 'list'},
+                          {'op': 'setter', 'what': 'files', 'files': [], 'pieces': 'stale'},
+                          {'op': 'psize', 'sel': ['empty'], 'form': 'tuple'}, {'op': 'psize', 'sel': ['name']},
+                          # and a multi-file torrent: the empty path is the total size
+                          {'op': 'edit', 'e': {'k': 'multi', 'files': [{'path': ['a'], 'size': 3}, {'path': ['d', 'b'], 'size': 4}]}},
+                          {'op': 'psize', 'sel': ['empty'], 'form': 'path'}]}
 
 
 def gen_histories(ctx, scale=1.0):
